@@ -318,15 +318,16 @@ def defer():
                 ts = _delay(p).total_seconds()
 
                 if ts <= 300.0:
-                    que.append(t)
-                    que.sort(key=lambda i: i.get('level'))
-                    t.set('status', State.waiting)
-                    t.set('event', 'Periodic timer')
-
                     if _is_asp(t):
                         t.get('todo').add('__all__')
                     else:
                         t.get('todo').update(dawgie.db.targets())
+
+                    if t not in que and t.get('todo'):
+                        que.append(t)
+                        que.sort(key=lambda i: i.get('level'))
+                        t.set('status', State.waiting)
+                        t.set('event', 'Periodic timer')
 
                     log.debug(
                         'defer() - moving task %s to the job queue', t.tag
@@ -442,7 +443,10 @@ def organize(
             pass
         pass
     log.debug('organize() - setting queue')
-    dawgie.pl.schedule.que = sorted(jobs.values(), key=lambda i: i.get('level'))
+    dawgie.pl.schedule.que = sorted(
+        filter(lambda j: j.get('todo') or j.get('doing'), jobs.values()),
+        key=lambda i: i.get('level'),
+    )
     return
 
 
